@@ -23,6 +23,8 @@
 EXTENDS Naturals, FiniteSets, Sequences, TLC
 
 CONSTANTS MaxFeatures,            \* max number of varied payload features in one vector (1 = depth-1 shapes)
+          PairPaths,              \* paths on which shapes with two varied features are run (feature interactions live
+                                  \* in the event's own dump/validate, which every path shares)
           Plan,                   \* set of <<trips, rep>>: number of consecutive round trips (1 or 2) and which
                                   \* representative values are used
           Dev_StopDropsDynamic,
@@ -73,6 +75,7 @@ WellFormed(c, t, d, r, x, p) ==
   /\ c # "none" => ((c \in StopLike) <=> (r # "na"))
   /\ (c \in FailureClasses \/ p \in ExcPaths) <=> (x # "na")
   /\ Features(t, d, r, x) <= MaxFeatures
+  /\ Features(t, d, r, x) >= 2 => p \in PairPaths
 
 SmallSubsets(S) == {{}} \cup {{a} : a \in S} \cup (IF MaxFeatures >= 2 THEN {{a, b} : a, b \in S} ELSE {})
 
@@ -86,6 +89,7 @@ Init ==
   /\ res \in (IF cls \in StopLike THEN {r \in UntypedKinds : Features(typed, dyn, r, "na") <= MaxFeatures} ELSE {"na"})
   /\ exc \in (IF cls \in FailureClasses \/ path \in ExcPaths
               THEN {x \in ExcKinds : Features(typed, dyn, res, x) <= MaxFeatures} ELSE {"na"})
+  /\ Features(typed, dyn, res, exc) >= 2 => path \in PairPaths
   /\ \E p \in Plan : trips = p[1] /\ rep = p[2]
 Next == UNCHANGED vars       \* one state = one vector
 Spec == Init /\ [][Next]_vars
